@@ -36,4 +36,5 @@ def quantize_activation(t: torch.Tensor, qtype: qtype, scale: torch.Tensor):
     """
     if scale.numel() != 1:
         raise ValueError("Parameter scale must be a scalar because activations can only be quantized per-tensor")
-    return SymmetricQuantizer.apply(t, qtype, None, scale)
+    # The quantized activation owns its scale: a caller may pass a module buffer or the scale of another tensor
+    return SymmetricQuantizer.apply(t, qtype, None, scale.clone())
